@@ -1,14 +1,21 @@
 (* Correspondence for C01: the scrub model on real pre-scrub results (shared with C13) and the point-data model on
    points rendered for the ids of the generated worlds. *)
 From Coq Require Import List String Bool Arith.
-From Pebbles Require Import Base.Json Base.Str Exec.Scrub Exec.PointData Corr.C07 Corr.C13.
+From Pebbles Require Import Base.Json Base.Str Exec.Scrub Exec.PointData Exec.Points Corr.C07 Corr.C13.
 Import ListNotations.
 Open Scope string_scope.
 Open Scope list_scope.
 
 Inductive c1case :=
 | CScrub (c : c13case)
-| CPoint (point : string) (obs : option (string * option nat * string)).
+| CPoint (point : string) (obs : option (string * option nat * string))
+| CFind (target : list string) (ss : list fsel) (result : list (string * json)) (branch : list string)
+        (obs : option (list (list string))).      (* executor.FindInsertionPoints; None = it returned an error *)
+
+Fixpoint strs_eqb (a b : list string) : bool :=
+  match a, b with [], [] => true | x :: a', y :: b' => (x =? y) && strs_eqb a' b' | _, _ => false end.
+Fixpoint paths_eqb (a b : list (list string)) : bool :=
+  match a, b with [], [] => true | x :: a', y :: b' => strs_eqb x y && paths_eqb a' b' | _, _ => false end.
 
 Definition agrees (c : c1case) : bool :=
   match c with
@@ -17,6 +24,12 @@ Definition agrees (c : c1case) : bool :=
       match extract point, obs with
       | Some p, Some (f, i, id) => (pd_field p =? f) && (match pd_index p, i with Some a, Some b => Nat.eqb a b | None, None => true | _, _ => false end) && (pd_id p =? id)
       | None, None => true
+      | _, _ => false
+      end
+  | CFind target ss result branch obs =>
+      match find_points target ss result branch, obs with
+      | POk l, Some o => paths_eqb l o
+      | PErr, None => true
       | _, _ => false
       end
   end.
